@@ -5,7 +5,7 @@ from . import e2e, outparse, quicsynth, scene, suites, tcpcap, tlssynth
 
 
 def random_tls_flow(rng, idx=0, ep=None, nmax=12, big=False, segkinds=("mss", "random", "whole", "records"), version=None, code=None, sport=443, v6=None,
-                    min_records=0):
+                    min_records=0, perturb=False):
     mx = suites.matrix()
     if version is None:
         v, c, name, p = mx[rng.randrange(len(mx))]
@@ -18,6 +18,9 @@ def random_tls_flow(rng, idx=0, ep=None, nmax=12, big=False, segkinds=("mss", "r
     ep = ep or tcpcap.random_ep(rng, v6=v6, sport=sport)
     segkind = rng.choice(list(segkinds))
     segs = tcpcap.segments(conn.events, ep, tcpcap.make_cutter(rng, segkind, conn.events))
+    if perturb:     # same byte streams, perturbed delivery: retransmitted duplicates and bounded reordering
+        segs = tcpcap.displace(tcpcap.add_duplicates(segs, rng, rng.choice([0, 1, 3])), rng, rng.choice([1, 2, 4]), maxdist=rng.choice([1, 2, 3]))
+        segkind += "+reordered"
     fl = scene.tls_flow(conn, ep, segs)
     fl.label = f"tls-{suites.VNAME[v]}-{c:04X}"
     fl.segkind = segkind
